@@ -180,6 +180,14 @@ def directed_cases(rng, tier):
             lines += ['sys.hw 8192', 'sys.r 0xFF26']
         cases.append(('d%d_%s' % (n, name), lines))
         n += 1
+    # timer registers written in each of the cycles around a TIMA overflow (overflow cycle, reload cycle, after)
+    for k in range(0, 10):
+        lines = [ctor]
+        for a, v in [(0xFF06, 0x99), (0xFF05, 0x57), (0xFF07, 0x00), (0xFF07, 0x06), (0xFF04, 0x00), (0xFF06, 0x00)]:
+            lines += ['sys.w 0xFF07 0', 'sys.w 0xFF06 0x23', 'sys.w 0xFF05 0xFF', 'sys.w 0xFF04 0', 'sys.w 0xFF07 5', 'sys.hw %d' % k,
+                      'map.snap', 'map.wd %d %d' % (a, v), 'sys.hw 1', 'map.snap', 'map.wd %d %d' % (a, (v + 1) & 255)]
+        cases.append(('d%d_%s' % (n, name), lines))
+        n += 1
     regs = {1: (0xFF11, 0xFF12, 0xFF14), 2: (0xFF16, 0xFF17, 0xFF19), 3: (0xFF1B, 0xFF1A, 0xFF1E), 4: (0xFF20, 0xFF21, 0xFF23)}
     for ch in (1, 2, 3, 4):
         for phase in range(8):          # every frame-sequencer step: the extra length clock exists in every second one
@@ -200,17 +208,30 @@ def directed_impl_cases(rng, tier):
     four channels play; TAC/TMA/TIMA/DIV written at random divider phases with the timer running"""
     cases = []
     ctor, name = CONFIGS[0][1], CONFIGS[0][0]
-    setup = ['sys.w 0xFF26 0x80', 'sys.w 0xFF24 0x77', 'sys.w 0xFF25 0xFF', 'sys.w 0xFF12 0xF3', 'sys.w 0xFF17 0xF3',
-             'sys.w 0xFF1A 0x80', 'sys.w 0xFF1C 0x20', 'sys.w 0xFF21 0xF3', 'sys.w 0xFF14 0x80', 'sys.w 0xFF19 0x80',
-             'sys.w 0xFF1E 0x80', 'sys.w 0xFF23 0x80']
+    def setup_lines():
+        # all four channels playing; channel 1 with its sweep unit idle or active and a low or high frequency
+        return ['sys.w 0xFF26 0x80', 'sys.w 0xFF24 0x77', 'sys.w 0xFF25 0xFF', 'sys.w 0xFF10 %d' % rng.choice([0x00, 0x11, 0x12, 0x23, 0x7f, 0x19]),
+                'sys.w 0xFF12 0xF3', 'sys.w 0xFF17 0xF3', 'sys.w 0xFF1A 0x80', 'sys.w 0xFF1C 0x20', 'sys.w 0xFF21 0xF3',
+                'sys.w 0xFF13 %d' % rng.randrange(256), 'sys.w 0xFF14 %d' % (0x80 | rng.choice([0, 3, 5, 7])), 'sys.w 0xFF19 0x80',
+                'sys.w 0xFF1E 0x80', 'sys.w 0xFF23 0x80']
     n = 0
     addrs = list(range(0xFF10, 0xFF40))
     vals = [0x00, 0xFF] if tier == 'quick' else [0x00, 0xFF, 0x1F, 0x80, 0x40]
     for a in addrs:
         lines = [ctor]
         for v in vals + [rng.randrange(256)]:
-            lines += ['sys.w 0xFF26 0x00'] + setup + ['sys.hw %d' % rng.randrange(1, 5000), 'map.snap', 'map.wd %d %d' % (a, v)]
+            lines += ['sys.w 0xFF26 0x00'] + setup_lines() + ['sys.hw %d' % rng.randrange(1, 5000), 'map.snap', 'map.wd %d %d' % (a, v)]
         cases.append(('p%d_%s' % (n, name), lines))
+        n += 1
+    # channel 1 with an active sweep unit whose next calculation fits: low-byte frequency writes must not touch NR52
+    for sh in (1, 2, 3):
+        f0 = [f for f in range(0x100, 0x800, 0x100) if f + (f >> sh) <= 2047 and (f | 0xff) + ((f | 0xff) >> sh) > 2047][-1]
+        lines = [ctor]
+        for v in (0xff, 0x80, rng.randrange(256)):
+            lines += ['sys.w 0xFF26 0x00', 'sys.w 0xFF26 0x80', 'sys.w 0xFF25 0xFF', 'sys.w 0xFF24 0x77', 'sys.w 0xFF10 %d' % (0x10 | sh),
+                      'sys.w 0xFF12 0xF3', 'sys.w 0xFF13 0', 'sys.w 0xFF14 %d' % (0x80 | (f0 >> 8)), 'sys.hw %d' % rng.randrange(1, 2000),
+                      'map.snap', 'map.wd 0xFF13 %d' % v]
+        cases.append(('w%d_%s' % (n, name), lines))
         n += 1
     for rep in range(12 if tier == 'quick' else 120):
         lines = [ctor, 'sys.w 0xFF06 %d' % rng.randrange(256), 'sys.w 0xFF05 %d' % rng.choice([0xFF, 0xFE, rng.randrange(256)])]
